@@ -251,7 +251,12 @@ async fn run_one(i: usize, b: Value) -> anyhow::Result<Value> {
             "import" => {
                 let key = key_of(&s["k"]);
                 let v = s["v"].as_str().unwrap().to_string();
-                let vdo = ConfigValueDO { content: Some(v.clone()), histories: vec![ConfigHistoryItemDO { id: s["hid"].as_u64(), content: Some(v), last_time: Some(1000 + k as i64), op_user: None }], config_type: None, desc: None };
+                // the history as the record lists it (it need not end with the record's content)
+                let histories: Vec<ConfigHistoryItemDO> = match s["h"].as_array() {
+                    Some(h) => h.iter().map(|x| ConfigHistoryItemDO { id: x["id"].as_u64(), content: x["content"].as_str().map(|c| c.to_string()), last_time: Some(1000 + k as i64), op_user: None }).collect(),
+                    None => vec![ConfigHistoryItemDO { id: s["hid"].as_u64(), content: Some(v.clone()), last_time: Some(1000 + k as i64), op_user: None }],
+                };
+                let vdo = ConfigValueDO { content: Some(v.clone()), histories, config_type: None, desc: None };
                 cx.addr.send(ConfigRaftCmd::SetFullValue { key, value: vdo.into(), last_id: s["hid"].as_u64() }).await??;
             }
             "listen" => {
